@@ -5,6 +5,7 @@ from hypothesis import strategies as st
 from vlib import strat as S, oracles as O
 
 ID = "C01"
+TARGETED = True     # thorough tier uses hypothesis.target on the residual/tolerance ratios
 RULE = ("Hypothesis: cells over the whole domain Gram>=0.02 (general / strongly oblique / Gram-boundary / "
         "conforming families), hkl in [-30,30]^3\\0, module in {tools, laue}; oracle = metric tensor from its "
         "definition. Non-trivial = at least two angles differ from 90 deg by > 5 deg (oblique); distinct = "
